@@ -324,3 +324,27 @@ Proof.
   cbv zeta. split; [vm_compute; reflexivity|]. split; [vm_compute; reflexivity|].
   intros t Ht. destruct t as [|[|t]]; try lia; vm_compute; reflexivity.
 Qed.
+
+(* ---- the kind table: the slow-I/O cap concerns exactly the name lookups ---- *)
+Lemma kind_table_lookup a : api_kind a = KSlow <-> is_lookup a = true.
+Proof. destruct a; cbn; split; intros H; try discriminate; reflexivity. Qed.
+
+Lemma kind_table_cap c progs sched :
+  let s := run c (init c progs) sched in
+  (forall ws : list nat,
+     NoDup ws ->
+     (forall w, In w ws -> exists r b a, wk s w = WRun r b /\ is_lookup a = true /\
+                                         r_kind (reqs s r) = api_kind a) ->
+     length ws <= threshold (c_n c)) /\
+  (forall w r b a, wk s w = WRun r b -> is_lookup a = false -> r_kind (reqs s r) = api_kind a ->
+     b = false).
+Proof.
+  intros s. split.
+  - intros ws Hnd Hws. apply (slow_cap c progs sched); [exact Hnd|].
+    intros w Hw. destruct (Hws w Hw) as (r & b & a & Hwk & Hl & Hk). exists r.
+    assert (b = true) as ->; [|exact Hwk].
+    apply (slow_flag_is_kind c progs sched w r b Hwk). fold s. rewrite Hk. apply kind_table_lookup. exact Hl.
+  - intros w r b a Hwk Hl Hk. destruct b; [|reflexivity]. exfalso.
+    assert (r_kind (reqs s r) = KSlow) as K by (apply (slow_flag_is_kind c progs sched w r true Hwk); reflexivity).
+    rewrite Hk in K. apply kind_table_lookup in K. congruence.
+Qed.
